@@ -6,6 +6,7 @@
 #   4 ./check <prop> --tier quick reports a VIOLATION against the patched tree
 set -u
 d="$(cd "$1" && pwd)"
+V="$(cd "$(dirname "$0")/.." && pwd)"   # the /verif tree this script belongs to (a clone may be used for testing)
 prop=$(python3 -c "import json,sys;print(json.load(open('$d/meta.json'))['property'])")
 wt=/tmp/seedtest-$$
 git -C /repo worktree add -q "$wt" HEAD || exit 2
@@ -23,13 +24,13 @@ echo "== demo on patched tree"
 sh "$d/demo/run.sh" "$wt" > "$d/demo-patched.log" 2>&1; r1=$?
 echo "   exit $r1 (want non-zero)"
 echo "== ./check $prop against patched tree"
-cd /verif && NV_EVIDENCE_DIR="$wt/_evidence" NV_REPO="$wt" ./check "$prop" --tier quick > "$d/check-patched.log" 2>&1; rc=$?
+cd "$V" && NV_EVIDENCE_DIR="$wt/_evidence" NV_REPO="$wt" ./check "$prop" --tier quick > "$d/check-patched.log" 2>&1; rc=$?
 grep -E "^VIOLATION|^KNOWN|^BUILD" "$d/check-patched.log" | head -5
 echo "   check exit $rc (want 1)"
 # drop the build tree of the scratch repo
 key=$(python3 -c "import hashlib,os;print(hashlib.sha1(os.path.realpath('$wt').encode()).hexdigest()[:10])")
-rm -rf /verif/.work/build-*-$key /verif/.work/harness-$key
+rm -rf "$V"/.work/build-*-$key "$V"/.work/harness-$key
 # the run above regenerated lean/NV/Gen/<prop>.lean from the patched tree: regenerate it from /repo again
-cd /verif && NV_EVIDENCE_DIR="$wt/_evidence2" ./check "$prop" --tier quick > /dev/null 2>&1
-rm -f /verif/replays/$prop-*.json.tmp
+cd "$V" && NV_EVIDENCE_DIR="$wt/_evidence2" ./check "$prop" --tier quick > /dev/null 2>&1
+rm -f "$V"/replays/$prop-*.json.tmp
 echo "RESULT demo_unpatched=$r0 demo_patched=$r1 check=$rc"
